@@ -121,6 +121,7 @@ def run(ctx):
         _replay_cfg(ctx, "MC_DataImpl_C18EmitL3", limit=3000, record=500)
         _replay_cfg(ctx, "MC_DataImpl_C18EmitMix", limit=4000, record=500)
         _replay_cfg(ctx, "MC_DataImpl_C18EmitSingle", limit=3000, record=300)      # every input dimension aligned with the verified ones
+        _replay_cfg(ctx, "MC_DataImpl_C18EmitExtra", limit=3000)      # other fields as cache keys (two quantile levels that agree to two decimals)
         _random_sequences(ctx, "C18Mix", 32, 10, 8)
     else:
         res = tlc.run("MC_DataImpl", "MC_DataImpl_C18QuickFixed", tag=ctx.pid + "_model", timeout_s=900, require_emit=False)
@@ -134,6 +135,7 @@ def run(ctx):
         _replay_cfg(ctx, "MC_DataImpl_C18EmitL3", record=4000)
         _replay_cfg(ctx, "MC_DataImpl_C18EmitMix", record=4000)
         _replay_cfg(ctx, "MC_DataImpl_C18EmitSingle", record=2000)
+        _replay_cfg(ctx, "MC_DataImpl_C18EmitExtra")
         _random_sequences(ctx, "C18Mix", 32, 60, 12)
         _random_sequences(ctx, "C18Quick", 16, 60, 12)
         ctx.exhaustive = True
